@@ -35,6 +35,18 @@ def _apply_torch(func: External, args, kwargs):
     name = func.name
     parts = name.split(".")
     last = parts[-1]
+    out_obj = (kwargs or {}).get("out")
+    if out_obj is not None:
+        # out=<tensor>: the values are written into that tensor's storage and the very same object is returned
+        rest = {kk: v for kk, v in kwargs.items() if kk != "out"}
+        r = _apply_torch(func, args, rest)
+        if not isinstance(r, STensor) or not isinstance(out_obj, STensor):
+            raise Unsupported("out= with non-tensor result")
+        if tuple(r.shape) != tuple(out_obj.shape):
+            raise Unsupported("out= buffer of another shape (torch would resize it)")
+        for i, v in zip(out_obj.idx, r.flat()):
+            out_obj.store[i] = v
+        return out_obj
     a = [_plain(x) for x in args]
     k = {kk: _plain(v) for kk, v in (kwargs or {}).items()}
     is_method = len(parts) >= 3 and parts[-2] == "Tensor"
@@ -99,6 +111,15 @@ class DEnv:
             self.other = it.new(self.IB, self.data2.clone(), tuple(self.grids[N:]))
         # model Tensor.__torch_function__
         tae._EXTERNAL_FUNCS["torch.Tensor.__torch_function__"] = lambda func, types, args=(), kwargs=None: _apply_torch(func, args, kwargs)
+
+    def buffer(self, n: int):
+        """A preallocated batch of n entries whose grids (and, for flows, axes) differ from those of the operands."""
+        it = self.it
+        data = symt.zeros([n, self.C, 2, 3])
+        grids = tuple(it.new(self.Grid, size=(3, 2), spacing=(7 + k, 11 + k), center=(-5 - k, 9 + k)) for k in range(n))
+        if self.flow:
+            return it.new(self.FF, data, grids, it.enum(self.Axes, "GRID"))
+        return it.new(self.IB, data, grids)
 
     def dispatch(self, func: str, *args, **kwargs):
         it = self.it
@@ -192,6 +213,8 @@ def programs(env: DEnv) -> List[Tuple[str, Callable[[], Any], Optional[bool]]]:
         ("torch.cat(tensors=[batch, other], dim=0) keywords", lambda: env.dispatch("torch.cat", tensors=[b, other], dim=0), None),
         ("batch.append(other)", lambda: env.it.method(b, "append", other), True),
         ("other.append(batch)", lambda: env.it.method(other, "append", b), True),
+        ("torch.mul(batch, 2, out=buffer with other grids)", lambda: env.dispatch("torch.mul", b, 2, out=env.buffer(env.N)), True),
+        ("torch.cat([other, batch], 0, out=buffer with other grids)", lambda: env.dispatch("torch.cat", [other, b], dim=0, out=env.buffer(2 * env.N)), True),
         ("torch.cat([batch, plain], 0)", lambda: env.dispatch("torch.cat", [b, env.data[0:1].clone()], dim=0), None),
         ("torch.split(batch, 1)", lambda: env.dispatch("torch.split", b, 1), True),
         ("torch.split(batch, 2)", lambda: env.dispatch("torch.split", b, 2), True),
